@@ -125,3 +125,154 @@ Theorem C12_failing_frame_ends_the_read : forall bad chunks calls b,
   Forall (fun c => snd c = false -> all_good bad (fst c) = true) calls.
 Proof. exact failing_frame_not_redelivered. Qed.
 Print Assumptions C12_failing_frame_ends_the_read.
+
+(* ---- an INNER lock site and failures a layer handles itself (C12/C12Inner.v) ----
+   A layer may take a lock of its own inside its body, around work that calls into no other layer (a key
+   manager's cipher lock around one encrypt / decrypt), and may HANDLE a failure of that work itself: the axolotl
+   receive layer turns a message it cannot decrypt into a retry receipt and the caller of the read sees nothing.
+   C12Inner.v extends the lock-chain semantics by exactly that: a frame may carry a handler (when a callee of the
+   frame raised and unwinding reaches it, the frame's lock released iff `ror`, the thread stops raising and goes on
+   with the handler's calls) and a lock may be re-entrant (owner + number of additional acquisitions).  The inner
+   site is an ordinary pair of nodes of such a graph (lock node calling a leaf work node) entered from the layer's
+   node in both directions; the theorems below are for EVERY ranked graph with any handlers and any re-entrant
+   locks, so for every table that contains such a site -- and, by C12_inner_absent_is_identity, for the tables
+   without one they are the theorems above.                                                                  *)
+From YV Require Import C12.C12Inner C12.C12InnerProofs C12.C12InnerInst.
+
+Section C12Inner.
+Variable data shared : Type.
+Variable has_lock ror reent : nat -> bool.
+Variable body : nat -> data -> shared -> shared * list (nat * data).
+Variable handler : nat -> data -> option (list (nat * data)).
+Hypothesis body_lower : forall x d s y d', In (y, d') (snd (body x d s)) -> y < x.
+Hypothesis handler_lower : forall x d h y d', handler x d = Some h -> In (y, d') h -> y < x.
+Hypothesis ror_all : forall x, ror x = true.
+Notation ireach := (ireach data shared has_lock ror reent body handler).
+Notation iexec := (iexec data shared has_lock ror reent body handler).
+
+(* after each operation returned, raised, or had its failure handled inside a layer (call stack empty) the
+   thread owns no lock, re-entrant or not *)
+Theorem C12_inner_locks_free_after : forall s0 opss c t th l,
+  ireach s0 opss c -> nth_error (ithr c) t = Some th -> istack th = [] -> owner_of c l <> Some t.
+Proof. exact (inner_locks_free_after_thm data shared has_lock ror reent body handler body_lower handler_lower ror_all). Qed.
+
+(* a taken lock belongs to a frame of an operation still in progress, and is taken exactly once *)
+Theorem C12_inner_holder_active : forall s0 opss c l t k,
+  ireach s0 opss c -> ilocks c l = Some (t, k) ->
+  k = 0 /\ exists th, nth_error (ithr c) t = Some th /\ istack th <> [] /\ iholds th l.
+Proof. exact (inner_holder_active_thm data shared has_lock ror reent body handler body_lower handler_lower ror_all). Qed.
+
+(* a follow-up operation of ANY thread is never blocked by operations that are over, whatever failed or was
+   handled in them *)
+Theorem C12_inner_progress : forall s0 opss c t th,
+  ireach s0 opss c -> nth_error (ithr c) t = Some th -> (istack th <> [] \/ iops th <> []) ->
+  (forall t' th', t' <> t -> nth_error (ithr c) t' = Some th' -> istack th' = []) ->
+  iexec c (t, false) <> None.
+Proof. exact (inner_progress_thm data shared has_lock ror reent body handler body_lower handler_lower ror_all). Qed.
+
+(* with operations in flight (one thread inside the inner site, another one on its way to it with layer locks in
+   its hands) some thread can always step *)
+Theorem C12_inner_no_deadlock : forall s0 opss c t th,
+  ireach s0 opss c -> nth_error (ithr c) t = Some th -> (istack th <> [] \/ iops th <> []) ->
+  exists t', iexec c (t', false) <> None.
+Proof. exact (inner_no_deadlock_thm data shared has_lock ror reent body handler body_lower handler_lower ror_all). Qed.
+
+End C12Inner.
+Print Assumptions C12_inner_locks_free_after.
+Print Assumptions C12_inner_holder_active.
+Print Assumptions C12_inner_progress.
+Print Assumptions C12_inner_no_deadlock.
+
+(* The leaky inner site (acquire; work; release WITHOUT try/finally -- e.g. a generator-based context manager that
+   yields between acquire and release -- on a re-entrant lock), the failure handled by the layer.  Stack: 0 cipher
+   work, 1 the inner lock site, 2..3 the layer below and the axolotl layer's toLower site, 4 the axolotl layer's send
+   (1 then 3), 5..6 the application layer's toLower site and send, 7 the axolotl layer's receive (1, handler for
+   kind 1: retry receipt down through 3).  Thread 0 reads an undecryptable message, then a good one; thread 1 sends.
+   Both operations of thread 0 RETURNED NORMALLY (nobody was told about a failure; its second message took the
+   re-entrant lock again), yet it owns the inner lock; thread 1 is stuck at the inner site with the application
+   layer's lock in its hands, and nothing can ever move again. *)
+Theorem C12_inner_leaky_refuted :
+  exists c th0 th1, it_reach (inner_table false true) inner_ops c /\
+    nth_error (ithr c) 0 = Some th0 /\ nth_error (ithr c) 1 = Some th1 /\
+    ifinished th0 /\ iresults th0 = [true; true] /\ ilocks c 1 = Some (0, 0) /\
+    ~ ifinished th1 /\ ilocks c 5 = Some (1, 0) /\
+    forall t, it_exec (inner_table false true) c (t, false) = None.
+Proof. exact inner_leaky_refuted_thm. Qed.
+Print Assumptions C12_inner_leaky_refuted.
+
+(* the same leak on a lock that is not re-entrant: the thread that handled the failure blocks ITSELF on its next
+   message *)
+Theorem C12_inner_leaky_plain_lock_refuted :
+  exists c th0, it_reach (inner_table false false) inner_ops c /\
+    nth_error (ithr c) 0 = Some th0 /\ iresults th0 = [true] /\ ~ ifinished th0 /\
+    ilocks c 1 = Some (0, 0) /\ it_exec (inner_table false false) c (0, false) = None.
+Proof. exact inner_leaky_plain_lock_thm. Qed.
+Print Assumptions C12_inner_leaky_plain_lock_refuted.
+
+(* every well-formed table with handlers and re-entrant locks (what the harness builds when the tree under test has
+   an inner site) satisfies the hypotheses of the C12_inner_ theorems; `inner_fixed_run` (C12InnerInst.v) replays
+   the witness history with release-on-raise at the inner site: all locks free, both threads complete. *)
+Theorem C12_inner_table_instance : forall T, itable_wf T = true -> table_ror_all (it_rows T) = true ->
+  (forall x d s y d', In (y, d') (snd (t_body (it_rows T) x d s)) -> y < x) /\
+  (forall x d h y d', it_handler T x d = Some h -> In (y, d') h -> y < x) /\
+  (forall x, t_ror (it_rows T) x = true).
+Proof.
+  intros T W R. split; [exact (itable_body_lower T W)|]. split; [exact (itable_handler_lower T W)|].
+  exact (table_ror (it_rows T) R).
+Qed.
+Print Assumptions C12_inner_table_instance.
+
+(* A failure is reported to the caller or handled by a layer that has a handler -- nothing else: (1) the step that
+   raises leaves the thread raising (or, at operation entry, the operation over with an error); (2) a raising thread
+   touches no shared state and takes no lock (a lock entry stays, is freed, or loses one acquisition); it keeps
+   unwinding with a shrinking stack, or its operation ends with an error, or -- only when a CALLEE of the top frame
+   raised and that frame has a handler -- the frame takes over at the same stack height, not held, its handler spent,
+   the thread no longer raising and nothing recorded; (3) `returned` is only recorded by a thread that is not
+   raising.  Every graph, every ror, every handler / re-entrancy assignment. *)
+Theorem C12_inner_handled_or_reported :
+  forall (data shared : Type) has_lock ror reent body handler c t fail c' th th',
+  iexec data shared has_lock ror reent body handler c (t, fail) = Some c' ->
+  nth_error (ithr c) t = Some th -> nth_error (ithr c') t = Some th' ->
+  (fail = true -> (imode th' <> RNo /\ istack th' <> [] /\ iresults th' = iresults th /\ ish c' = ish c)
+                  \/ (istack th' = [] /\ iresults th' = iresults th ++ [false] /\ ish c' = ish c)) /\
+  (imode th <> RNo ->
+     ish c' = ish c /\
+     (forall l, ilocks c' l = ilocks c l \/ ilocks c' l = None \/
+                exists o k, ilocks c l = Some (o, S k) /\ ilocks c' l = Some (o, k)) /\
+     ((imode th' <> RNo /\ iresults th' = iresults th /\ length (istack th') < length (istack th)) \/
+      (istack th' = [] /\ imode th' = RNo /\ iresults th' = iresults th ++ [false]) \/
+      (imode th = RCallee /\ imode th' = RNo /\ iresults th' = iresults th /\
+       exists f fs h, istack th = f :: fs /\ icatch f = Some h /\
+                      istack th' = IFrame (inode f) false h None :: fs))) /\
+  (imode th = RNo -> fail = false ->
+     iresults th' = iresults th \/ (iresults th' = iresults th ++ [true] /\ istack th' = [])).
+Proof. exact inner_error_reported_thm. Qed.
+Print Assumptions C12_inner_handled_or_reported.
+
+(* The inner site is optional and its absence is the identity: with no handler anywhere and no re-entrant lock the
+   extended semantics is C12Chain.v's, step by step.  `sim c0 c`: same owners (every lock taken exactly once), same
+   shared state, the threads of c0 are the projections of the threads of c (ROwn / RCallee both read as `raising`),
+   no frame carries a handler.  The initial configurations are related; every step of the extended semantics is a
+   step of C12Chain's `exec` with the same action leading to related configurations; an action that cannot step in the
+   extended semantics (blocked on a lock, nothing to do) cannot step in C12Chain's either; hence every reachable
+   configuration of the one is related to a reachable configuration of the other. *)
+Theorem C12_inner_absent_is_identity :
+  forall (data shared : Type) (has_lock ror : nat -> bool)
+         (body : nat -> data -> shared -> shared * list (nat * data)),
+  let noh := fun (_ : nat) (_ : data) => @None (list (nat * data)) in
+  let nore := fun _ : nat => false in
+  (forall s0 opss, sim data shared (init data shared s0 opss) (iinit data shared s0 opss)) /\
+  (forall c0 c a c', sim data shared c0 c -> iexec data shared has_lock ror nore body noh c a = Some c' ->
+      exists c0', exec data shared has_lock ror body c0 a = Some c0' /\ sim data shared c0' c') /\
+  (forall c0 c a, sim data shared c0 c -> iexec data shared has_lock ror nore body noh c a = None ->
+      exec data shared has_lock ror body c0 a = None) /\
+  (forall s0 opss c, ireach data shared has_lock ror nore body noh s0 opss c ->
+      exists c0, reach data shared has_lock ror body s0 opss c0 /\ sim data shared c0 c).
+Proof.
+  intros data shared has_lock ror body noh nore. split; [|split; [|split]].
+  - exact (inner_conservative_init data shared).
+  - exact (inner_conservative_sim data shared has_lock ror body).
+  - exact (inner_conservative_enabled data shared has_lock ror body).
+  - exact (inner_conservative_reach data shared has_lock ror body).
+Qed.
+Print Assumptions C12_inner_absent_is_identity.
